@@ -245,3 +245,44 @@ class C04(Spec):
         s = Spec.sample(self, case, res)
         s['field'] = case['prog']['type']
         return s
+
+
+from .families import fxpfam  # noqa: E402
+
+
+@_register
+class C02(Spec):
+    check_id = 'C02'
+    family = 'fxp'
+    title = 'secure fixed-point arithmetic stays within its rounding bounds'
+    technique = 'deterministic simulation + exact rational interval reference (stated bounds composed by interval propagation)'
+    quick = {'runs': 1500, 'wall': 75}
+    thorough = {'runs': 300000, 'wall': 900}
+
+    def make_case(self, seed, tier):
+        rng = random.Random(f'C02/{seed}')
+        cfg = sample_cfg(rng, tier)
+        prog = fxpfam.gen(rng, cfg, tier, effects=rng.random() < 0.15,
+                          kf={7: ('div',), 13: ('integrality',), 17: ('small_divisor',)}.get(seed % 20))
+        return {'family': 'fxp', 'cfg': cfg.to_json(), 'prog': prog, 'seed': seed,
+                'start_delays': sample_start_delays(rng, cfg.m)}
+
+
+@_register
+class C03(Spec):
+    check_id = 'C03'
+    family = 'fxp'
+    title = 'fixed-point integrality flags are never wrong'
+    technique = 'deterministic simulation; every program variable is opened and its integral flag compared with the value'
+    quick = {'runs': 1500, 'wall': 75}
+    thorough = {'runs': 300000, 'wall': 900}
+    expected_probes = ('flags_true', 'flags_false')
+
+    def make_case(self, seed, tier):
+        rng = random.Random(f'C03/{seed}')
+        cfg = sample_cfg(rng, tier)
+        prog = fxpfam.gen(rng, cfg, tier, all_outputs=True, trig=False, kf=('integrality',) if seed % 20 == 7 else None)
+        return {'family': 'fxp', 'cfg': cfg.to_json(), 'prog': prog, 'seed': seed}
+
+    def nontrivial(self, case, res):
+        return res.info.get('probes', {}).get('flags_true', 0) > 0
